@@ -41,7 +41,7 @@ func (S06) Info() scen.Info {
 			"readers honour the io.Reader contract: no (0,nil) forever, no n<len with nil error on writes",
 			"after a read error surfaced mid-stream the returned error need not be the injected one (the decoder may wrap it); an opener error must be returned as is",
 			"a load whose delivered bytes differ from the stored ones but still hash to a short truncated digest is unconstrained",
-			"TrustedStorage=true is excluded, as the property says",
+			"with TrustedStorage=true (8% of the units) only the open / read error clauses and panics are judged, as the property says",
 			"go-cid / go-multihash are used as instruments to parse the digest out of a link",
 		},
 		Components: map[string]string{
@@ -51,7 +51,7 @@ func (S06) Info() scen.Info {
 			"goroutine scheduling":  "stub: seeded one-at-a-time scheduler (a second client loads another block while the fault is in flight)",
 		},
 		QuickUnits: 240, ThoroughUnits: 12000, QuickSecs: 240, ThoroughSecs: 1200,
-		ProbeKeys: []string{"probe.decode_failed_then_drained", "probe.error_at_eof_position", "probe.hash_collision_short_digest", "probe.late_error_after_complete_block", "probe.second_client_interleaved", "probe.hashmismatch_precedence_over_decode_error", "probe.reifier_loads_through_given_linksystem", "probe.kind_specific_prototype", "probe.consumer_used_writeto", "probe.walk_load_met_bad_copy", "probe.walk_later_load_met_bad_copy"},
+		ProbeKeys: []string{"probe.decode_failed_then_drained", "probe.error_at_eof_position", "probe.hash_collision_short_digest", "probe.late_error_after_complete_block", "probe.second_client_interleaved", "probe.hashmismatch_precedence_over_decode_error", "probe.reifier_loads_through_given_linksystem", "probe.kind_specific_prototype", "probe.consumer_used_writeto", "probe.walk_load_met_bad_copy", "probe.walk_later_load_met_bad_copy", "probe.trusted_storage_unit"},
 		EventsKey: "events",
 	}
 }
@@ -235,8 +235,17 @@ func (S06) RunTape(t *sim.Tape, st *sim.Stats, keepLog bool) *sim.Outcome {
 	// An ADL-style NodeReifier: it is handed a *LinkSystem by the load that calls it and, like a
 	// multi-block ADL, loads a further block through THAT link system. Storage answers with another
 	// block's bytes; nobody declared storage trusted, so every one of those loads must fail.
+	// One unit in twelve declares storage trusted once the blocks are stored. The property then asks
+	// for no hash check -- but open and read errors must still surface as errors, never as partial
+	// data: only those clauses are judged in such a unit (and panics).
+	trusted := t.Pct(8, "cfg.trusted")
+	if trusted {
+		lsys.TrustedStorage = true
+		st.Inc("probe.trusted_storage_unit")
+	}
+
 	inReifier := false
-	if t.Bool("cfg.reifier") && L2.Binary() != L.Binary() && kind != 12 {
+	if t.Bool("cfg.reifier") && L2.Binary() != L.Binary() && kind != 12 && !trusted {
 		lsys.NodeReifier = func(lc linking.LinkContext, n datamodel.Node, ls *linking.LinkSystem) (datamodel.Node, error) {
 			if inReifier || s.Cur() != 0 {
 				return n, nil
@@ -265,7 +274,9 @@ func (S06) RunTape(t *sim.Tape, st *sim.Stats, keepLog bool) *sim.Outcome {
 	info := &baseInfo{LenB: len(B), Codec: codec.Name}
 	fired := false
 
-	if kind == 12 {
+	if kind == 12 && trusted {
+		// nothing to judge: the walk-level rule is about hash mismatches
+	} else if kind == 12 {
 		// ---- the block is reached by a traversal, several times: every one of those loads is a load ----
 		fired = walkLoads(o, st, t, s, seam, &lsys, codec, L, L2, B, B2, mkFault, benign)
 	} else if kind <= 7 || kind == 11 {
@@ -318,7 +329,7 @@ func (S06) RunTape(t *sim.Tape, st *sim.Stats, keepLog bool) *sim.Outcome {
 						break
 					}
 				}
-				outcomes[fn] = judgeLoad(o, st, codec, fnNames[fn], kindNames[kind], L, B, wantV, rd, res)
+				outcomes[fn] = judgeLoad(o, st, codec, fnNames[fn], kindNames[kind], L, B, wantV, rd, res, trusted)
 				if outcomes[fn] == "ok" {
 					if res.node != nil {
 						kept = append(kept, keptNode{res.node, fnNames[fn]})
@@ -810,8 +821,11 @@ func doLoadInto(lsys *linking.LinkSystem, fn int, l datamodel.Link, np datamodel
 }
 
 // judgeLoad applies the C06 oracle to one load, from the reader's own log.
-func judgeLoad(o *sim.Outcome, st *sim.Stats, codec gen.Codec, fn, kind string, L datamodel.Link, B []byte, wantV *model.V, rd *simstore.Reader, res loadRes) string {
+func judgeLoad(o *sim.Outcome, st *sim.Stats, codec gen.Codec, fn, kind string, L datamodel.Link, B []byte, wantV *model.V, rd *simstore.Reader, res loadRes, trusted bool) string {
 	sig := codec.Name + " " + fn + " " + kind
+	if trusted {
+		sig += " trusted-storage"
+	}
 	if res.pan != "" {
 		o.Fail("panic", sig, "%s panicked under fault %s: %s", fn, kind, res.pan)
 		return "panic"
@@ -862,6 +876,10 @@ func judgeLoad(o *sim.Outcome, st *sim.Stats, codec gen.Codec, fn, kind string, 
 			o.Fail("data-with-error", sig, "%s returned %d raw bytes that do not hash to the link, after a read error", fn, len(res.raw))
 		}
 		return "err-after-readerr"
+	}
+	if trusted {
+		// no open or read error reached the consumer: with storage declared trusted nothing else is promised
+		return "trusted-unjudged"
 	}
 	// no error surfaced: judge on what was actually delivered
 	dOK := hashesTo(L, delivered)
